@@ -14,6 +14,7 @@ open LLBuild.NinjaBuild LLBuild.NinjaBuild.Gen
 structure Quiet (m : Manifest) (d : List Path) (G : Command → Prop) (w : World) : Prop where
   srcs : ∀ p ∈ d, producer m.cmds p = none → SrcSettled w p
   cmds : ∀ c ∈ m.cmds, c.neededIn d = true → G c → needsTask m.cmds w c = false
+  deps : DepsInv m.cmds w
 
 /-- `G` contains, with a command, the producers of everything whose change re-runs it -/
 def GClosed (m : Manifest) (G : Command → Prop) : Prop :=
@@ -54,16 +55,17 @@ theorem KeyIn.head {m : Manifest} {G : Command → Prop} {l post : List Command}
     cases h1; exact hg
 
 /-- what `needsTask = false` says -/
-theorem needsTask_false {cs : List Command} {w : World} {c : Command} (h : needsTask cs w c = false) :
-    ∃ r, w.cmdDb c.name = some r ∧ commandIsResultValid (kOf w c) r.value (c.outs.map w.info) = .valid ∧
+theorem needsTask_false {cs : List Command} {w : World} {c : Command} (hrec : DepsRec w c) (h : needsTask cs w c = false) :
+    ∃ r, w.cmdDb c.name = some r ∧ r.sig = sigOf c ∧ commandIsResultValid (kOf w c) r.value (c.outs.map w.info) = .valid ∧
       ∀ k ∈ depKeys c, rebuiltSince r.builtAt (resOf cs w k) = false := by
-  unfold needsTask at h
+  rw [needsTask_static hrec] at h
+  unfold needsTaskS at h
   cases hr : w.cmdDb c.name with
   | none => rw [hr] at h; cases h
   | some r =>
     rw [hr] at h
     simp only [Bool.or_eq_false_iff, bne_eq_false_iff_eq, triggers_storedDeps, List.any_eq_false] at h
-    exact ⟨r, rfl, h.1, fun k hk => by simpa using h.2 k hk⟩
+    exact ⟨r, rfl, h.1.1, h.1.2, fun k hk => by simpa using h.2 k hk⟩
 
 theorem valid_infosMatch {c : Command} {w : World} {v : BuildValue} (hp : c.phony = false)
     (h : commandIsResultValid (kOf w c) v (c.outs.map w.info) = .valid) :
@@ -126,7 +128,7 @@ theorem Quiet.settled {m : Manifest} (hwf : wfFrom [] m.cmds = true) {targets : 
     by_cases hko : k ∈ q.outs
     · have hneed := needed_of_demanded hko hk
       have hgq : G q := hsrc.head hat hko
-      obtain ⟨r, hr, hv, hdeps⟩ := needsTask_false (hq.cmds q hat.mem hneed hgq)
+      obtain ⟨r, hr, hsg, hv, hdeps⟩ := needsTask_false (hq.deps q hat.mem) (hq.cmds q hat.mem hneed hgq)
       have hclosed := demanded_closed m hwf targets hat.mem hneed
       cases hp : q.phony with
       | false =>
@@ -135,7 +137,7 @@ theorem Quiet.settled {m : Manifest} (hwf : wfFrom [] m.cmds = true) {targets : 
       | true =>
         rw [settled_phony hko hp]
         have hkind := ((C18_valid_iff _ _ _).1 hv).1
-        refine ⟨r, hr, hkind, fun k' hk' => ?_⟩
+        refine ⟨r, hr, hsg, hkind, fun k' hk' => ?_⟩
         have hk'd : k' ∈ depKeys q := by simp only [depKeys, List.mem_append] at hk' ⊢; exact Or.inl hk'
         exact ⟨ih (q :: post) (by rw [hsplit]; simp) k' (hclosed k' (depKeys_sub_insAll q k' hk'd))
           (KeyIn.of_dep hG hat hgq hk'd), hdeps k' hk'd⟩
@@ -147,13 +149,13 @@ theorem Quiet.fresh {m : Manifest} (hwf : wfFrom [] m.cmds = true) {targets : Li
     (hinv : WorldInv m w) (hG : GClosed m G) (hq : Quiet m (demanded m targets) G w) {before rest : List Command} {c : Command}
     (hat : At m.cmds before c rest) (hp : c.phony = false) (hn : c.neededIn (demanded m targets) = true) (hgc : G c) :
     FreshWith m before c w (w.cmdline c.name) := by
-  obtain ⟨r, hr, hv, hdeps⟩ := needsTask_false (hq.cmds c hat.mem hn hgc)
+  obtain ⟨r, hr, hsg, hv, hdeps⟩ := needsTask_false (hq.deps c hat.mem) (hq.cmds c hat.mem hn hgc)
   obtain ⟨hkind, hhash, hmatch⟩ := valid_infosMatch hp hv
   have hclosed := demanded_closed m hwf targets hat.mem hn
   have hd : DepsOK m.cmds w before c r.builtAt := fun k hk =>
     ⟨hq.settled hwf hinv.inv0 hG before (c :: rest) hat.split k (hclosed k (depKeys_sub_insAll c k hk))
       (KeyIn.of_dep hG hat hgc hk), hdeps k hk⟩
-  have := hinv.k before c rest hat hp r hr hkind hmatch hd
+  have := hinv.k before c rest hat hp r hr hsg hkind hmatch hd
   have he : c.effHash r.value.hash = c.effHash (w.cmdline c.name) := by
     rcases hhash with hg | hh
     · simp [Command.effHash, hg]
